@@ -287,6 +287,13 @@ def _pure_boolean(e):
         return _pure_boolean(e.operand)
     if isinstance(e, ast.Compare):
         return all(_pure_operand(x) for x in [e.left] + e.comparators)
+    if isinstance(e, ast.Call) and isinstance(e.func, ast.Name) and \
+            e.func.id == "isinstance" and len(e.args) == 2 and \
+            not e.keywords and _pure_operand(e.args[0]) and (
+                isinstance(e.args[1], ast.Name) or (
+                    isinstance(e.args[1], ast.Tuple) and all(
+                        isinstance(x, ast.Name) for x in e.args[1].elts))):
+        return True         # a type test of a name
     return False
 
 
@@ -492,7 +499,12 @@ class Canon:
             if inside != u.loads.get(v, 0):
                 continue
             clean = True
+            # (the type of an object does not change under calls on it)
+            type_test_only = isinstance(st.value, ast.Call) and isinstance(
+                st.value.func, ast.Name) and st.value.func.id == "isinstance"
             for n in ast.walk(ast.Module(body=rest, type_ignores=[])):
+                if type_test_only:
+                    break
                 if isinstance(n, ast.Call) and order.get(id(n), 0) <= last:
                     recv = n.func
                     while isinstance(recv, ast.Attribute):
